@@ -26,10 +26,13 @@ var AllDrivers = []string{"memory", "secret", "configmap"}
 
 // backend is one real driver under test plus the means to look at what it stores.
 type backend struct {
-	kind string
-	st   *helmstorage.Storage // real pkg/storage front (real makeKey) over the real driver
-	sim  *simcluster.Sim      // nil for memory
-	ns   string
+	seen    map[string]StoreRec      // projection of a stored object by object name, dropped whenever the server logs a write to it
+	reqSeen int                      // requests of the server's log already looked at
+	seenPtr map[*rspb.Release]AbsRel // memory driver: List hands out the stored pointers themselves
+	kind    string
+	st      *helmstorage.Storage // real pkg/storage front (real makeKey) over the real driver
+	sim     *simcluster.Sim      // nil for memory
+	ns      string
 }
 
 func newBackend(kind, ns string) (*backend, error) {
@@ -288,8 +291,17 @@ func (b *backend) projectStore(c *Conc, t *table) (out map[string]StoreRec, pani
 			out["?list-error"] = StoreRec{}
 			return out, ""
 		}
+		if b.seenPtr == nil {
+			b.seenPtr = map[*rspb.Release]AbsRel{}
+		}
 		for _, r := range rels {
-			a, _, _ := t.abstract(c, r)
+			a, ok := b.seenPtr[r]
+			if !ok {
+				a, _, _ = t.abstract(c, r)
+				if r != nil {
+					b.seenPtr[r] = a
+				}
+			}
 			k := a.Name + "/" + strconv.Itoa(a.Rev)
 			for _, dup := out[k]; dup; _, dup = out[k] {
 				k += "#dup"
@@ -302,12 +314,31 @@ func (b *backend) projectStore(c *Conc, t *table) (out map[string]StoreRec, pani
 	if b.kind == "configmap" {
 		res = "configmaps"
 	}
-	for k, o := range b.sim.Snapshot() {
+	if b.seen == nil {
+		b.seen = map[string]StoreRec{}
+	}
+	// any write request the server saw since the last look (whatever its outcome) invalidates that object
+	reqs := b.sim.Requests(b.reqSeen)
+	b.reqSeen += len(reqs)
+	for _, rq := range reqs {
+		if rq.Method != "GET" {
+			delete(b.seen, rq.Key.Name)
+		}
+	}
+	for _, k := range b.sim.Keys() {
 		if k.Resource != res || k.Namespace != b.ns {
 			out["?"+k.String()] = StoreRec{}
 			continue
 		}
 		key := absKey(c, k.Name)
+		if sr, ok := b.seen[k.Name]; ok {
+			out[key] = sr
+			continue
+		}
+		o := b.sim.GetObj(k)
+		if o == nil {
+			continue
+		}
 		data, _ := nestedStr(o, "data", "release")
 		if b.kind == "secret" { // Secret data is base64 on the wire
 			raw, err := base64.StdEncoding.DecodeString(data)
@@ -334,6 +365,7 @@ func (b *backend) projectStore(c *Conc, t *table) (out map[string]StoreRec, pani
 		a, _, _ := t.abstract(c, r)
 		lab := &Sel{Name: c.AbsName(lbl["name"]), Owner: lbl["owner"], Status: c.AbsStatus(lbl["status"]), Version: lbl["version"]}
 		out[key] = StoreRec{AbsRel: a, Lab: lab}
+		b.seen[k.Name] = out[key]
 	}
 	return out, ""
 }
@@ -478,7 +510,19 @@ func RunScenario(seed int64, tier string, sc Scenario) (*Result, error) {
 			if n == 1 {
 				dissent = append([]string{}, drivers...)
 			}
-			res.Obs = append(res.Obs, Obs{Scenario: sc.ID, Step: step, Kind: "disagree", Op: call.Op, CName: c.Names[call.Name], Dissent: dissent,
+			byKey := map[string][]string{}
+			var order []string
+			for _, d := range drivers {
+				if _, ok := byKey[keys[d]]; !ok {
+					order = append(order, keys[d])
+				}
+				byKey[keys[d]] = append(byKey[keys[d]], d)
+			}
+			var groups [][]string
+			for _, k := range order {
+				groups = append(groups, byKey[k])
+			}
+			res.Obs = append(res.Obs, Obs{Scenario: sc.ID, Step: step, Kind: "disagree", Op: call.Op, CName: c.Names[call.Name], Dissent: dissent, Groups: groups,
 				Detail: fmt.Sprintf("drivers disagree at step %d (%s): %v differ from the others", step, call.Op, dissent)})
 		}
 	}
